@@ -368,3 +368,6 @@ func (s *Sim) RunThen(maxSteps int, after func()) {
 //
 //go:norace
 func (s *Sim) stuck() bool { return true }
+
+// Close: nothing to release on this back end
+func (s *Sim) Close() {}
